@@ -22,11 +22,34 @@ Eval vm_compute in (map (fun c => (c, tcp_lines_in bundled_db TReq c, tcp_lines_
     out = subprocess.run(['coqc', '-noglob', '-Q', os.path.join(V, 'coq'), 'HN', 'classes.v'], cwd=d, capture_output=True, text=True).stdout
     out = re.sub(r'\s+', ' ', out)
     cls = {}
-    for m in re.finditer(r'\((C\w+), \[(.*?)\], \[(.*?)\]\)', out):
+    for m in re.finditer(r'\(\s*(C\w+),\s*\[(.*?)\],\s*\[(.*?)\]\)', out):
         for tb, grp in (('q', m.group(2)), ('s', m.group(3))):
             for x in grp.split(';'):
                 if x.strip(): cls[int(x)] = (m.group(1), tb)
     return cls
+
+def coq_http_live(lines, limit):
+    """lines (not refuted by a witness) whose abstraction walk has at most `limit` leaves and passes (live_http_w)"""
+    src = '''From Coq Require Import List NArith Bool.
+From HN Require Import Base.Bytes Model.SigAst Spec.ScanSpec Spec.InstanceSpec Spec.DbLoadSpec Spec.BundledSpec Spec.ConformSpec Spec.ReachSpec Spec.ReachHttpSpec.
+Import ListNotations.
+Definition cand : list N := [%s].
+Definition res (k : hkind) :=
+  let tb := http_table bundled_db k in let sw := sw_all_of tb in
+  flat_map (fun e => let \'(line, (li, si, s)) := e in
+     if existsb (N.eqb line) cand then
+       let n := count_from k tb sw (filter (substring_b (hs_expsw s)) sw) (hs_horder s) false in
+       [(line, n, if N.leb n %d then live_http_w k tb li si s sw else false)] else [])
+     (with_lines (sig_lines (http_sec k)) tb).
+Eval vm_compute in (res HReq ++ res HResp).
+''' % ('; '.join(str(l) for l in lines), limit)
+    d = os.path.join(V, 'build', 'run', 'C13'); os.makedirs(d, exist_ok=True)
+    open(os.path.join(d, 'httplive.v'), 'w').write(src)
+    out = subprocess.run(['coqc', '-noglob', '-Q', os.path.join(V, 'coq'), 'HN', 'httplive.v'], cwd=d, capture_output=True, text=True).stdout
+    out = re.sub(r'\s+', ' ', out)
+    res = {}
+    for m in re.finditer(r'\(\s*(\d+),\s*(\d+),\s*(true|false)\)', out): res[int(m.group(1))] = (int(m.group(2)), m.group(3) == 'true')
+    return res
 
 def http_sigs():
     sec = None; res = {}
@@ -123,15 +146,21 @@ def main():
         elif c in ('CValueWindow', 'COptZero', 'CModWindow', 'CMtuWindow', 'CMssWide') and unknown: groups['dead_value_window'].append(line); wit['value_window'].append((line, b[3]))
         elif c in ('CEolPad', 'COddTtl') and b is not None: groups['dead_eol_pad'].append(line); wit['eol_pad'].append((line, b[3]))
         else: groups['undecided_tcp'].append(line)
-    hgroups = collections.OrderedDict((k, []) for k in ['dead_http_exact', 'dead_http_expsw', 'dead_http_value', 'undecided_http'])
+    cand = [line for line in sorted(hsig) if not (best.get(('H', hsig[line][0], line)) is not None and best[('H', hsig[line][0], line)][0] == 0)]
+    LIMIT = int(os.environ.get('C13_HTTP_LEAVES', '3000'))
+    hl = coq_http_live(cand, LIMIT)
+    print('http abstraction:', {l: hl[l] for l in sorted(hl)})
+    hgroups = collections.OrderedDict((k, []) for k in ['live_http', 'dead_http_exact', 'dead_http_expsw', 'dead_http_value', 'undecided_http'])
     for line in sorted(hsig):
         tb = hsig[line][0]; b = best.get(('H', tb, line))
         if b is not None and b[0] == 0:
             k = ['exact', 'expsw', 'value'][b[1]]
             hgroups['dead_http_' + k].append(line); wit['http_' + k].append((line, b[3]))
+        elif hl.get(line, (0, False))[1]:
+            hgroups['live_http'].append(line)
+            if not wit['ex_http'] and ('H', tb, line) in good: wit['ex_http'].append((line, good[('H', tb, line)]))
         else:
             hgroups['undecided_http'].append(line)
-            if not wit['ex_http'] and ('H', tb, line) in good: wit['ex_http'].append((line, good[('H', tb, line)]))
     fmt = lambda l: '[' + '; '.join(str(x) for x in l) + ']'
     with open(os.path.join(V, 'coq', 'Spec', 'ReachLists.v'), 'w') as f:
         f.write('''(* C13: the documented status of the bundled signatures, by p0f.fp line (literal data written by
@@ -155,6 +184,8 @@ Definition undecided_tcp_lines : list N := %s.
 Definition dead_tcp_lines : list N := dead_bad_ttl_lines ++ dead_value_window_lines ++ dead_eol_pad_lines.
 
 (* ---- HTTP ---- *)
+(* proved reachable by the finite abstraction (Spec/ReachHttpSpec.v; walks of at most C13_HTTP_LEAVES = 3000 leaves) *)
+Definition live_http_lines : list N := %s.
 (* dead already for messages that give every literal exactly and the bare token as software string *)
 Definition dead_http_exact_lines : list N := %s.
 (* dead for messages with exact literals whose software string strictly contains the token (Expsw) *)
